@@ -3,6 +3,7 @@
 package keeper
 
 import (
+	sdk "github.com/cosmos/cosmos-sdk/types"
 	codectypes "github.com/cosmos/cosmos-sdk/codec/types"
 	"time"
 
@@ -36,3 +37,4 @@ func verifNote(label string, v any)                { panic("verif intrinsic") }
 // verifInnerMsg: an Any wrapping an arbitrary (stub) message, as ExecuteMessages receives them
 func verifInnerMsg(name string) *codectypes.Any { panic("verif intrinsic") }
 func verifSymQty64(name string) int64               { panic("verif intrinsic") }
+func verifFreshChain(ctx sdk.Context) sdk.Context { panic("verif intrinsic") }
